@@ -319,6 +319,28 @@ def r145(ctx):
                "disconnect does not restore the previous view", where=f"{rem.file}:{rem.line}",
                sample=f"{was} && !{is_} => {fld} = None on every path")
 
+    # ... and the pair is sampled around the undo: `was` before the block's changes are reverted, `is` after (sampled at the
+    # same moment the two are always equal and nothing is ever cleared); same for the connect side
+    from engine import rulelib as R
+    for fb, loopsrc in ((rem, "changes"), (add, "changes")):
+        v0 = fnview(ctx, fb, policy=False)
+        loops = R.loops_over(v0, lambda x: loopsrc in x)
+        for getter in ("is_closing_swept", "is_our_output_swept"):
+            calls = [bi for bi, c in fb.calls() if c.callee and c.callee.name == f"{ST}::{getter}"]
+            if len(loops) != 1 or len(calls) < 2:
+                ctx.ob("R14.5", False, f"{fb.name}/{getter}/sampled-twice",
+                       f"`{fb.name}`: {len(loops)} loop(s) over the block's changes, {len(calls)} `{getter}` samples (expected one loop "
+                       "with a sample before and a sample after it)", where=f"{fb.file}:{fb.line}")
+                continue
+            h = loops[0][0]
+            before = [bi for bi in calls if h in v0.reach(bi)]
+            after = [bi for bi in calls if h not in v0.reach(bi)]
+            ctx.ob("R14.5", bool(before) and bool(after), f"{fb.name}/{getter}/before-and-after",
+                   f"`{fb.name}` does not sample `{getter}` once before and once after it applies the block's changes "
+                   f"({len(before)} before, {len(after)} after): the swept -> un-swept (or un-swept -> swept) edge is never seen, so the "
+                   "recorded swept height does not follow the best chain", where=f"{fb.file}:{fb.line}",
+                   sample="was <- sample; apply changes; is <- sample")
+
 
 def r146(ctx):
     ctx.rule("R14.6", "change derivation is independent of the spent status it toggles: the PushListener callbacks (which "
